@@ -397,6 +397,13 @@ def n_spellings(ast) -> int:
     return len(_SPELL[ast[0]])
 
 
+def fresh_typing():
+    """Empty typing's subscription caches: they compare arguments with ==, and Union equality ignores member order, so
+    List[Union[B, A]] would otherwise BE the object made earlier for List[Union[A, B]]."""
+    for f in t._cleanups:  # type: ignore[attr-defined]
+        f()
+
+
 def build(ast, sp: int = 0, child_sp: int = 0):
     """Real type object for `ast`; the outer node uses spelling `sp`, every node below uses `child_sp` (mod its count)."""
     k = (_key(ast), sp, child_sp)
